@@ -7,6 +7,7 @@ import (
 	"net"
 	"sort"
 	"sync"
+	"sync/atomic"
 	"syscall"
 	"time"
 
@@ -70,14 +71,16 @@ func (o c10UDPSeam) pool() *pool.Pool {
 
 func (o c10UDPSeam) UDPServerApply(cfg *udpServer.Config) {
 	cfg.PeriodicRunner = o.tick
-	m := o.mid
-	cfg.GetMID = func() int32 { m++; return m & 0xffff }
+	var m atomic.Int32
+	m.Store(o.mid)
+	cfg.GetMID = func() int32 { return m.Add(1) & 0xffff }
 	cfg.MessagePool = o.pool()
 }
 func (o c10UDPSeam) DTLSServerApply(cfg *dtlsServer.Config) {
 	cfg.PeriodicRunner = o.tick
-	m := o.mid
-	cfg.GetMID = func() int32 { m++; return m & 0xffff }
+	var m atomic.Int32
+	m.Store(o.mid)
+	cfg.GetMID = func() int32 { return m.Add(1) & 0xffff }
 	cfg.MessagePool = o.pool()
 }
 func (o c10UDPSeam) TCPServerApply(cfg *tcpServer.Config) {
